@@ -469,7 +469,10 @@ impl OsIpcSender {
                 len as socklen_t,
             ) < 0
             {
-                return Err(UnixError::last());
+                // Nobody owns the descriptor yet: release it before reporting the error.
+                let error = UnixError::last();
+                libc::close(fd);
+                return Err(error);
             }
 
             Ok(OsIpcSender::from_fd(fd))
